@@ -53,7 +53,7 @@ def main(which):
         items = [i for i in items if i["phase"] == "split" or (i["phase"] == "observed")]
     if quick:
         # every second observed configuration (all layouts are still covered), all splits, all refusals
-        items = [i for i in items if i["phase"] != "observed" or i["k"] % 2 == C.seed() % 2 or (i["cfg"]["L"] and i["cfg"]["tmax"] == 0)]
+        items = [i for i in items if i["phase"] != "observed" or i["k"] % 3 == C.seed() % 3 or (i["cfg"]["L"] and i["cfg"]["tmax"] == 0 and i["k"] % 2 == 0)]
     opts = {"backends": ["jaxley.stone", "jaxley.thomas", "jax.sparse"], "modes_every": 7 if quick else 2,
             "manual_every": 5 if quick else 1, "eager": True}
     if which != "C06":
@@ -77,7 +77,7 @@ def main(which):
                 continue
             if which == "C06" and mm["kind"] == "recordings" and not mm.get("L"):
                 continue            # plain runs are C08's business; C06 is about layouts and modes
-            sig = {"kind": mm["kind"], "layout_given": bool(mm.get("L")), "tmax_given": mm.get("tmax", 0) > 0}
+            sig = {"kind": mm["kind"], "layout_given": bool(mm.get("L")), "tmax_given": mm.get("tmax", 0) > 0, "data_stimulus": bool(mm.get("dat"))}
             if mm["kind"] == "returned_state":
                 sig["prod_checkpoint_lengths_gt_steps"] = mm.get("prod_gt_steps")
             chk.violation(sig, mm)
